@@ -8,6 +8,49 @@ LEAN_TB = [
 ]
 
 PROPS = {
+    "C11": {
+        "stateless": True,
+        "gens": {
+            "quick": [
+                {"name": "repo testdata (src/quorum/testdata/*.txt)", "args": ["quorum", "--testdata"]},
+                {"name": "random 25000 cases, 0-9 ids per half", "args": ["quorum", "--seed", "{seed}", "--cases", "25000", "--max-ids", "9"]},
+                {"name": "exhaustive halves in {1..3}, idx 0..2, grp 0..2", "args": ["quorum", "--exhaustive", "--ids", "3", "--max-idx", "2", "--max-grp", "2"], "exhaustive": True},
+            ],
+            "thorough": [
+                {"name": "repo testdata (src/quorum/testdata/*.txt)", "args": ["quorum", "--testdata"]},
+                {"name": "exhaustive halves in {1..4}, idx 0..3, grp 0..2, votes y/n/missing", "args": ["quorum", "--exhaustive", "--ids", "4", "--max-idx", "3", "--max-grp", "2"], "exhaustive": True},
+                {"name": "random 500000 cases, 0-12 ids per half", "args": ["quorum", "--seed", "{seed}", "--cases", "500000", "--max-ids", "12"]},
+            ],
+        },
+        "rule": "self-contained calls of the real raft::majority, MajorityConfig::{committed_index, vote_result}, JointConfig::{committed_index, vote_result} and ProgressTracker::{maximal_committed_index, tally_votes, has_quorum} (through the cfg(tikv_raft_rs_verif) hook module raft::verif::quorum, which only builds the private AckIndexer / joint configuration / tracker and forwards); a case is one call: voter ids of both halves (0..9 per half in the quick tier, 0..12 thorough, overlapping, consecutive or arbitrary u64 ids so that hash iteration order varies; sizes cross the 7/8 stack/heap boundary of committed_index), acknowledged (index, group) per voter with many ties, missing voters, entries of non-voters, groups including 0, indexes up to u64::MAX, group commit on and off; partial vote maps; candidate quorum sets; plus the repo's own quorum/testdata cases as inputs and an exhaustive enumeration of all halves within a small id universe with every ack/group/vote assignment. Returned (index, flag) / VoteResult / counters are compared with the Lean model; distinct = distinct call lines",
+        "trusted_base": LEAN_TB,
+        "assumptions": [
+            "acknowledged indexes are u64 values (only used by joint_committedIndex, because an empty half reports u64::MAX as +infinity)",
+            "memory safety of the MaybeUninit stack buffer in majority.rs:77-85 is not a theorem; its behaviour on both the <=7 and the >7 voter path is covered by the correspondence",
+            "hash-set iteration order is not modelled; committedIndex_perm / voteResult_perm prove every result is independent of it",
+        ],
+    },
+    "C12": {
+        "gens": {
+            "quick": [
+                {"name": "repo testdata (8 scripts)", "args": ["confchange", "--testdata"]},
+                {"name": "random 30000x12", "args": ["confchange", "--seed", "{seed}", "--cases", "30000", "--len", "12"]},
+                {"name": "exhaustive ids<=4 lists<=2 depth 3", "args": ["confchange", "--exhaustive", "--ids", "4", "--len", "2", "--depth", "3"], "exhaustive": True},
+            ],
+            "thorough": [
+                {"name": "repo testdata (8 scripts)", "args": ["confchange", "--testdata"]},
+                {"name": "random 150000x14", "args": ["confchange", "--seed", "{seed}", "--cases", "150000", "--len", "14"]},
+                {"name": "exhaustive ids<=4 lists<=3 depth 3", "args": ["confchange", "--exhaustive", "--ids", "4", "--len", "3", "--depth", "3"], "exhaustive": True},
+            ],
+        },
+        "rule": "sequences on the real raft::Changer (simple / enter_joint auto_leave on+off / leave_joint), ProgressTracker::apply_conf, Configuration::to_conf_state, confchange::restore (through the cfg-gated hook), the dispatch of Raft::apply_conf_change on a follower whose tracker is swapped in, and the proto-level ConfChangeV2::{enter_joint,leave_joint}, ConfChange::into_v2, conf_state_eq: (1) the commands of the repo's 8 confchange/testdata scripts, (2) random sequences from one PRNG starting from the empty tracker, a consistent or an arbitrary ConfState (overlapping sets, id 0, duplicates, permutations) or a hook-built inconsistent tracker (drives check_invariants), with change lists over ids 0..6 (0 and unknown ids, duplicates, empty lists), dry runs, restore round trips and permuted re-restores, (3) exhaustive: every configuration reachable from the empty tracker in <= depth successful changes over the id universe, and from each of them every change list up to the length bound under every change kind + the restore round trip; after every operation the result kind and the full configuration (incoming, outgoing, learners, learners_next sorted, auto_leave, ids with a Progress and their learner flag, the ConfState) are compared with the Lean model; a case is one (observation before, operation) pair, distinct = distinct pairs, non-trivial = every pair after the initial `new`",
+        "trusted_base": LEAN_TB,
+        "assumptions": [
+            "only the key set of the ProgressMap is modelled (Progress contents are outside the property); raft-rs's Progress has no learner flag, the flag shown is membership in conf.learners",
+            "all check_invariants failures are one error kind (which of several simultaneous violations is reported first depends on hash iteration order)",
+            "a deciding quorum of the empty configuration is undefined (n/2+1 of 0 members cannot be met); the code's convention that an empty majority config wins every vote only concerns bootstrap and is excluded from the overlap theorems",
+        ],
+    },
     "C18": {
         "gens": {
             "quick": [
